@@ -1,1 +1,203 @@
-fn main() { eprintln!("not built yet"); std::process::exit(2); }
+//! vp-cipher — runtime monitor for property C05: "Encrypted traffic is one continuous AES-128-CFB8
+//! stream under any I/O schedule".
+//!
+//! The real `passage_protocol::crypto::stream::CipherStream` is run over a scripted inner transport
+//! (`plan::PlanStream`) that accepts writes fully / by a strict prefix / not at all (`Pending`), and
+//! delivers reads in chunks of 1..=64 bytes with interleaved `Pending`s. What the transport accepted
+//! and produced, and what the caller was told, is judged against an independent AES-128-CFB8
+//! (`vp_common::refcrypto`). See `run.rs` for the oracle clauses.
+
+mod generate;
+mod plan;
+mod run;
+mod scenario;
+
+use generate::{Sizes, Workload};
+use scenario::Scenario;
+use serde_json::{Value, json};
+use std::collections::HashSet;
+use std::panic::{AssertUnwindSafe, catch_unwind};
+use vp_common::report::{self, Cli, Report, Tier};
+
+const RULE: &str = "scenario i = f(VERIF_SEED, i): a CipherStream over a scripted transport, one of five drivers \
+(poll_write by hand incl. skipped/changed buffers after Pending, write_all, poll_read by hand into prefilled/uninitialised \
+ReadBufs, interleaved reads+writes, two back-to-back CipherStreams over a pipe), random plaintext 0..max_len, random \
+16-byte secret, switch never / from the start / at a byte offset (every offset of a short exchange is swept). \
+A case counts as non-trivial when at least one byte was judged after the switch AND the transport was hostile at least \
+once (partial accept, Pending, or a read cut short); distinct = distinct (driver, switch point, full sequence of \
+transport answer classes F/P/W/Z for writes and size-class+buffer-relation per read)";
+
+fn describe(o: &run::Outcome, sc: &Scenario, index: Option<u64>) -> Value {
+    json!({
+        "index": index,
+        "scenario": serde_json::to_value(sc).unwrap_or(Value::Null),
+        "caller_trace": o.trace.iter().take(300).cloned().collect::<Vec<_>>().join(" "),
+        "transport_schedule": o.sched.chars().take(600).collect::<String>(),
+    })
+}
+
+/// Runs one scenario and folds what was observed into `rep`.
+fn execute(rep: &mut Report, sc: &Scenario, index: Option<u64>, sampled_kinds: &mut HashSet<&'static str>) {
+    let result = catch_unwind(AssertUnwindSafe(|| run::run(sc)));
+    let outcome = match result {
+        Ok(Ok(o)) => o,
+        Ok(Err(why)) => {
+            rep.eval(None);
+            rep.inconclusive(&format!("scenario {index:?} ({}) could not be run: {why}", sc.kind()));
+            rep.count("scenarios the harness could not run", 1);
+            return;
+        }
+        Err(p) => {
+            let msg = p
+                .downcast_ref::<String>()
+                .cloned()
+                .or_else(|| p.downcast_ref::<&str>().map(|s| s.to_string()))
+                .unwrap_or_else(|| "panic".into());
+            rep.eval(None);
+            rep.violation(
+                &format!("panic/{}", sc.kind()),
+                &format!("the stream panicked while being driven ({}): {}", sc.kind(), msg.lines().next().unwrap_or("")),
+                json!({"index": index, "scenario": serde_json::to_value(sc).unwrap_or(Value::Null), "panic": msg}),
+            );
+            return;
+        }
+    };
+    rep.eval(outcome.class.as_deref());
+    rep.count(
+        match sc {
+            Scenario::WriteDirect(_) => "scenarios: poll_write by hand",
+            Scenario::WriteAll(_) => "scenarios: write_all",
+            Scenario::Read(_) => "scenarios: poll_read by hand",
+            Scenario::Interleaved(_) => "scenarios: interleaved reads and writes",
+            Scenario::Duplex(_) => "scenarios: two back-to-back CipherStreams",
+        },
+        1,
+    );
+    if outcome.switch_label.starts_with("after") || outcome.switch_label.starts_with("at_call") {
+        rep.count("scenarios switching to encryption mid-stream", 1);
+    }
+    rep.count("bytes judged after the switch", outcome.post_switch_bytes);
+    for (k, v) in &outcome.counters {
+        rep.count(k, *v);
+    }
+    if let Some(why) = &outcome.inconclusive {
+        rep.inconclusive(&format!("scenario {index:?} ({}): {why}", sc.kind()));
+        rep.count("scenarios with an unjudged clause", 1);
+    }
+    for f in &outcome.findings {
+        let mut w = describe(&outcome, sc, index);
+        w["clause"] = json!(f.sig);
+        w["observed_vs_expected"] = f.detail.clone();
+        rep.violation(&f.sig, &f.what, w);
+    }
+    if outcome.class.is_some() && sc.payload() <= 96 && !sampled_kinds.contains(sc.kind()) && rep.wants_sample() {
+        sampled_kinds.insert(sc.kind());
+        let mut s = describe(&outcome, sc, index);
+        s["findings"] = json!(outcome.findings.iter().map(|f| f.sig.clone()).collect::<Vec<_>>());
+        rep.sample(s);
+    }
+}
+
+fn main() {
+    let cli = Cli::parse();
+    if !cfg!(miri) {
+        report::watchdog(&cli.prop, 1500);
+    }
+    let mut report = Report::new(&cli, "exploration", RULE);
+    report.set_max_samples(10);
+    if cli.prop != "C05" {
+        report.inconclusive_fatal(&format!("vp-cipher only decides C05, not {}", cli.prop));
+        std::process::exit(report.finish());
+    }
+    if let Err(e) = vp_common::refcrypto::self_test() {
+        report.inconclusive_fatal(&format!("reference cryptography failed its self test: {e}"));
+        std::process::exit(report.finish());
+    }
+    if let Err(e) = run::self_check() {
+        report.inconclusive_fatal(&format!("harness self check failed: {e}"));
+        std::process::exit(report.finish());
+    }
+    report.assume("the inner transport never fails (no io::Error is injected); transport errors are outside the property's quantifier");
+    report.assume("a caller enables encryption at a byte offset it has completely written/consumed (reads before the switch are bounded to that offset), as Connection does between Encryption Response and Login Success");
+    report.assume("after Poll::Pending the caller may call again with any buffer; only bytes returned by Ready(Ok(n)) count as reported as written");
+    report.assume("streams are compared as wholes after poll_flush returned Ready, so an implementation that buffers internally is not penalised");
+    report.assume("the scripted transport answers at most three consecutive Pending per direction and always wakes the task before returning Pending");
+
+    if let Some(path) = &cli.replay {
+        let loaded = std::fs::read_to_string(path)
+            .map_err(|e| e.to_string())
+            .and_then(|t| serde_json::from_str::<Value>(&t).map_err(|e| e.to_string()))
+            .and_then(|v| {
+                let sc = v.pointer("/witness/scenario").or_else(|| v.get("scenario")).cloned().unwrap_or(v);
+                serde_json::from_value::<Scenario>(sc).map_err(|e| e.to_string())
+            });
+        match loaded {
+            Ok(sc) => {
+                let mut kinds = HashSet::new();
+                execute(&mut report, &sc, None, &mut kinds);
+                report.set("replayed", json!(path.display().to_string()));
+            }
+            Err(e) => report.inconclusive_fatal(&format!("cannot load replay file {}: {e}", path.display())),
+        }
+        std::process::exit(report.finish());
+    }
+
+    // workload sizes: quick ≈ 5.6 k schedules, thorough ≈ 560 k; --scale shrinks every count, the
+    // plaintext bound, the swept exchange and the secret pool
+    let scale = cli.scale();
+    let mult: u64 = cli.tier.pick(1, 100);
+    let shrink = scale.min(1.0);
+    let sizes = Sizes {
+        max_len: ((4096.0 * (shrink * 4.0).min(1.0)) as usize).clamp(48, 4096),
+        sweep_len: ((32.0 * shrink.sqrt()) as usize).clamp(6, 32),
+        secret_pool: cli.scaled(2000 * mult),
+    };
+    let wl = Workload {
+        seed: cli.seed,
+        sizes,
+        sweeps: cli.scaled(6 * mult),
+        write_direct: cli.scaled(1500 * mult),
+        write_all: cli.scaled(700 * mult),
+        read: cli.scaled(1200 * mult),
+        interleaved: cli.scaled(700 * mult),
+        duplex: cli.scaled(500 * mult),
+    };
+    let total = wl.total();
+    report.set(
+        "workload",
+        json!({
+            "scale": scale, "max_len": sizes.max_len, "swept_exchange_len": sizes.sweep_len,
+            "sweeps(x (len+1) offsets x 5 drivers)": wl.sweeps, "write_direct": wl.write_direct, "write_all": wl.write_all,
+            "read": wl.read, "interleaved": wl.interleaved, "duplex": wl.duplex, "total": total,
+        }),
+    );
+
+    let threads = cli.threads();
+    if threads <= 1 {
+        let mut kinds = HashSet::new();
+        for i in 0..total {
+            let sc = wl.scenario(i);
+            execute(&mut report, &sc, Some(i), &mut kinds);
+        }
+    } else {
+        let block = 128u64;
+        let blocks: Vec<(u64, u64)> = (0..total.div_ceil(block)).map(|b| (b * block, ((b + 1) * block).min(total))).collect();
+        let base = &report;
+        let parts = report::par_map(blocks, threads, |_, (lo, hi)| {
+            let mut rep = base.fork();
+            let mut kinds = HashSet::new();
+            for i in *lo..*hi {
+                let sc = wl.scenario(i);
+                execute(&mut rep, &sc, Some(i), &mut kinds);
+            }
+            rep
+        });
+        for p in parts {
+            report.merge(p);
+        }
+    }
+    if cli.tier == Tier::Thorough {
+        report.set("note", json!("thorough additionally runs the same oracles under Miri (see /verif/miri.sh)"));
+    }
+    std::process::exit(report.finish());
+}
